@@ -13,7 +13,7 @@ headers every run, see known_findings.json / proposed_fixes/C04-*):
 So the file carries `…_full : Prop` (the statement), `…_full_false` (kernel-checked refutation of it for the model of the
 current code, with the concrete witness) and `…_partial` (what is proved).
 -/
-import DSProofs.Lemmas.HllUnion
+import DSProofs.Lemmas.HllUnionInv
 import DSProofs.Props.C03
 namespace DS.Hll
 
@@ -160,6 +160,225 @@ theorem union_reset_partial (p : Params) (u : Un ν) (hk : u.gadget.lgK = u.lgMa
   unfold unionReset newUnion reset newSketch
   simp [hk, htt, hsf]
 
+/-! ## Whole histories without precision reduction -/
+
+/-- the histories for which the full statements ARE proved: lvalue updates whose HLL-mode inputs have exactly lg_k = lg_max_k
+(LIST / SET inputs of any lg_k), raw items, estimate calls and resets in any interleaving; coupons are genuine (a nonzero
+coupon has a positive value, as every `HllUtil::coupon` has). What is missing for the full statements is exactly the two
+defects: inputs that force a precision reduction (D1, and D14 after a reset) — and the rvalue overload (correspondence only). -/
+def NoReduction (ν : Type) [HNum ν] (p : Params) (lgMaxK : Nat) (ops : List UOp) : Prop :=
+  ∀ op, op ∈ ops → match op with
+    | .merge d rv => rv = false ∧ d.lgK ≤ p.keyBits ∧ ((d.build p : St ν).mode = .hll → d.lgK = lgMaxK) ∧
+        ∀ c, c ∈ d.cs → c ≠ 0 → 0 < cValue p c
+    | .coupon c => c ≠ 0 → 0 < cValue p c
+    | _ => True
+
+theorem union_gadget_inv_aux (p : Params) (hp : p.listFitsSet) (lgMaxK : Nat) (hkb : lgMaxK ≤ p.keyBits) :
+    ∀ (ops : List UOp) (u : Un ν) (cs : List Nat), u.lgMaxK = lgMaxK → GInv p lgMaxK u.gadget cs → NoReduction ν p lgMaxK ops →
+      GInv p lgMaxK (uRun p u ops).gadget (ops.foldl offeredStep cs) ∧ (uRun p u ops).lgMaxK = lgMaxK
+  | [], u, cs, hu, hg, _ => ⟨hg, hu⟩
+  | op :: ops, u, cs, hu, hg, hok => by
+    have hop := hok op List.mem_cons_self
+    have hrest : NoReduction ν p lgMaxK ops := fun o ho => hok o (List.mem_cons_of_mem _ ho)
+    have step : GInv p lgMaxK (uStep p u op).gadget (offeredStep cs op) ∧ (uStep p u op).lgMaxK = lgMaxK := by
+      cases op with
+      | coupon c =>
+        exact ⟨hg.coupon hp c hop, hu⟩
+      | touch => exact ⟨hg.touch, hu⟩
+      | reset => exact ⟨hg.reset, hu⟩
+      | merge d rv =>
+        obtain ⟨hrv, hdk, hdl, hdv⟩ := hop
+        subst hrv
+        show GInv p lgMaxK (unionUpdate p u (d.build p)).gadget (cs ++ d.cs) ∧ (unionUpdate p u (d.build p)).lgMaxK = lgMaxK
+        have hemp : isEmpty (d.build p : St ν) = true → ∀ c, c ∈ d.cs → c = 0 :=
+          (hll_empty_iff (ν := ν) p hp d.lgK d.tt d.sf d.cs hdv).1
+        cases hsf : d.sf with
+        | false =>
+          have hR := RInv.run hp d.cs (RInv.init (ν := ν) p d.lgK d.tt)
+          simp only [List.nil_append] at hR
+          have hb : (d.build p : St ν) = run p (newList p d.lgK d.tt) d.cs := by
+            unfold SkDesc.build newSketch; rw [hsf]; rfl
+          rw [hb] at hemp hdl ⊢
+          refine hg.unionUpdate hp hkb hu _ d.cs (fun _ => by rw [hR.lgK_eq]; exact hR)
+            (fun hm => ⟨hR.hll hm, hR.lgK_eq.trans (hdl hm)⟩) hdv hemp
+        | true =>
+          have hS := run_startFull p d.cs (s := (newHll d.lgK d.tt true : St ν)) (cs := []) rfl
+            (by have := HInv.newHll (ν := ν) p d.lgK d.tt true
+                exact ⟨this.size, fun slot hs => IsMaxAt.congr (by simp) (this.regs slot hs), this.cm_le, this.cnt4, this.cnt68⟩)
+          simp only [List.nil_append] at hS
+          have hb : (d.build p : St ν) = run p (newHll d.lgK d.tt true) d.cs := by
+            unfold SkDesc.build newSketch; rw [hsf]; rfl
+          rw [hb] at hemp hdl ⊢
+          refine hg.unionUpdate hp hkb hu _ d.cs (fun hm => absurd hS.1 hm)
+            (fun hm => ⟨hS.2.2.2, hS.2.1.trans (hdl hm)⟩) hdv hemp
+    have ih := union_gadget_inv_aux p hp lgMaxK hkb ops (uStep p u op) (offeredStep cs op) step.2 step.1 hrest
+    simpa [uRun] using ih
+
+/-- the gadget invariant after any history without precision reduction -/
+theorem union_gadget_inv (p : Params) (hp : p.listFitsSet) (lgMaxK : Nat) (hkb : lgMaxK ≤ p.keyBits) (ops : List UOp)
+    (hok : NoReduction ν p lgMaxK ops) :
+    GInv p lgMaxK (uRun p (newUnion p lgMaxK : Un ν) ops).gadget (offered ops) :=
+  (union_gadget_inv_aux p hp lgMaxK hkb ops (newUnion p lgMaxK) [] rfl (GInv.new p lgMaxK) hok).1
+
+/-- `union_lgk` — PARTIAL (histories without precision reduction; missing: D1 / D14): the result's lg_k is lg_max_k,
+whatever the interleaving of updates, raw items, estimate calls and resets, for every result type. -/
+theorem union_lgk_partial (p : Params) (hp : p.listFitsSet) (lgMaxK : Nat) (hkb : lgMaxK ≤ p.keyBits) (ops : List UOp)
+    (hok : NoReduction ν p lgMaxK ops) (tt : TType) :
+    (unionResult p (uRun p (newUnion p lgMaxK : Un ν) ops) tt).lgK = lgMaxK := by
+  have hg := union_gadget_inv (ν := ν) p hp lgMaxK hkb ops hok
+  have hpre := copyAs_preserves p (uRun p (newUnion p lgMaxK : Un ν) ops).gadget tt
+    (fun hm => by rw [(hg.hll hm).size]) (by rw [hg.lgk]; exact hkb)
+  exact hpre.2.1.trans hg.lgk
+
+/-- `union_content` — PARTIAL (same histories): the result holds exactly what ONE sketch of lg_max_k fed every item of every
+input (the inputs' own coupon streams and the raw items since the last reset) would hold: in HLL mode every register is the
+per-slot maximum of all those coupons, in LIST / SET mode the coupon set is exactly the distinct nonzero coupons — nothing
+lost, nothing extra, for every result type. -/
+theorem union_content_partial (p : Params) (hp : p.listFitsSet) (lgMaxK : Nat) (hkb : lgMaxK ≤ p.keyBits) (ops : List UOp)
+    (hok : NoReduction ν p lgMaxK ops) (tt : TType) :
+    let r : St ν := unionResult p (uRun p (newUnion p lgMaxK) ops) tt
+    (r.mode = .hll → r.regs.size = 2^lgMaxK ∧
+      ∀ slot, slot < 2^lgMaxK → IsMaxAt p lgMaxK (fun c => c ∈ offered ops) slot (r.regs.getD slot 0)) ∧
+    (r.mode ≠ .hll → r.items.Nodup ∧ ∀ c, c ∈ r.items ↔ (c ∈ offered ops ∧ c ≠ 0)) := by
+  intro r
+  have hg := union_gadget_inv (ν := ν) p hp lgMaxK hkb ops hok
+  have hr : r = copyAs p (uRun p (newUnion p lgMaxK : Un ν) ops).gadget tt := rfl
+  generalize (uRun p (newUnion p lgMaxK : Un ν) ops).gadget = g at hg hr
+  have hpre := copyAs_preserves p g tt (fun hm => by rw [(hg.hll hm).size]) (by rw [hg.lgk]; exact hkb)
+  rw [hr]
+  obtain ⟨pm, pk, ptt, pregs, pitems⟩ := hpre
+  refine ⟨fun hm => ?_, fun hm => ?_⟩
+  · have hgm : g.mode = .hll := pm ▸ hm
+    have gh := hg.hll hgm
+    rw [pregs]
+    refine ⟨by rw [gh.size, hg.lgk], fun slot hs => ?_⟩
+    have := gh.regs slot (by rw [hg.lgk]; exact hs)
+    rw [hg.lgk] at this
+    refine ⟨fun c hc hsl => ?_, ?_⟩
+    · by_cases h0 : c = 0
+      · subst h0; simp [cValue]
+      · exact this.1 c ⟨hc, h0⟩ hsl
+    · rcases this.2 with h0 | ⟨c, hc, hsl, hv⟩
+      · exact Or.inl h0
+      · exact Or.inr ⟨c, hc.1, hsl, hv⟩
+  · have hgm : g.mode ≠ .hll := fun e => hm (pm.trans e)
+    rw [pitems hgm]
+    obtain ⟨cs0, hR, hmem⟩ := hg.nonhll hgm
+    refine ⟨(hR.items_perm hgm).nodup_iff.2 (distinct_nodup cs0), fun c => ?_⟩
+    rw [hR.mem_items hgm c]
+    constructor
+    · rintro ⟨h1, h2⟩; exact ⟨(hmem c h2).1 h1, h2⟩
+    · rintro ⟨h1, h2⟩; exact ⟨(hmem c h2).2 h1, h2⟩
+
+/-- Two histories without precision reduction that offered the same nonzero coupons give the same result: same lg_k, same
+registers when both results are in HLL mode, same coupon set when both are in LIST / SET mode. -/
+theorem union_result_determined (p : Params) (hp : p.listFitsSet) (lgMaxK : Nat) (hkb : lgMaxK ≤ p.keyBits) (ops ops' : List UOp)
+    (hok : NoReduction ν p lgMaxK ops) (hok' : NoReduction ν p lgMaxK ops') (tt tt' : TType)
+    (hsame : ∀ c, c ≠ 0 → (c ∈ offered ops ↔ c ∈ offered ops')) :
+    let r : St ν := unionResult p (uRun p (newUnion p lgMaxK) ops) tt
+    let r' : St ν := unionResult p (uRun p (newUnion p lgMaxK) ops') tt'
+    r.lgK = r'.lgK ∧ (r.mode = .hll → r'.mode = .hll → r.regs = r'.regs) ∧
+    (r.mode ≠ .hll → r'.mode ≠ .hll → ∀ c, c ∈ r.items ↔ c ∈ r'.items) := by
+  intro r r'
+  have a := union_content_partial (ν := ν) p hp lgMaxK hkb ops hok tt
+  have b := union_content_partial (ν := ν) p hp lgMaxK hkb ops' hok' tt'
+  have la := union_lgk_partial (ν := ν) p hp lgMaxK hkb ops hok tt
+  have lb := union_lgk_partial (ν := ν) p hp lgMaxK hkb ops' hok' tt'
+  refine ⟨la.trans lb.symm, fun hm hm' => ?_, fun hm hm' c => ?_⟩
+  · have a1 := a.1 hm
+    have b1 := b.1 hm'
+    apply Array.ext
+    · rw [a1.1, b1.1]
+    · intro i h1 h2
+      rw [← getD_eq_getElem (d := 0) h1, ← getD_eq_getElem (d := 0) h2]
+      have hi : i < 2^lgMaxK := by rw [← a1.1]; exact h1
+      refine IsMaxAt.unique (a1.2 i hi) ?_
+      have b2 := b1.2 i hi
+      refine ⟨fun x hx hsl => ?_, ?_⟩
+      · by_cases h0 : x = 0
+        · subst h0; simp [cValue]
+        · exact b2.1 x ((hsame x h0).1 hx) hsl
+      · rcases b2.2 with h0 | ⟨x, hx, hsl, hv⟩
+        · exact Or.inl h0
+        · by_cases h0 : x = 0
+          · subst h0; left; rw [← hv]; simp [cValue]
+          · exact Or.inr ⟨x, (hsame x h0).2 hx, hsl, hv⟩
+  · rw [(a.2 hm).2 c, (b.2 hm').2 c]
+    constructor
+    · rintro ⟨h1, h2⟩; exact ⟨(hsame c h2).1 h1, h2⟩
+    · rintro ⟨h1, h2⟩; exact ⟨(hsame c h2).2 h1, h2⟩
+
+/-- coupons offered by a history without resets -/
+theorem mem_offered_aux : ∀ (ops : List UOp) (acc : List Nat) (c : Nat),
+    (∀ o, o ∈ ops → o ≠ .reset) →
+    (c ∈ ops.foldl offeredStep acc ↔ (c ∈ acc ∨ ∃ o, o ∈ ops ∧ c ∈ offeredStep [] o))
+  | [], acc, c, _ => by simp
+  | o :: ops, acc, c, hnr => by
+    simp only [List.foldl_cons]
+    rw [mem_offered_aux ops (offeredStep acc o) c (fun x hx => hnr x (List.mem_cons_of_mem _ hx))]
+    have ho := hnr o List.mem_cons_self
+    have e : c ∈ offeredStep acc o ↔ (c ∈ acc ∨ c ∈ offeredStep [] o) := by
+      cases o with
+      | merge d rv => simp [offeredStep]
+      | coupon x => simp [offeredStep]
+      | touch => simp [offeredStep]
+      | reset => exact absurd rfl ho
+    rw [e]
+    simp only [List.mem_cons]
+    constructor
+    · rintro ((h1 | h1) | ⟨x, hx, h1⟩)
+      · exact Or.inl h1
+      · exact Or.inr ⟨o, Or.inl rfl, h1⟩
+      · exact Or.inr ⟨x, Or.inr hx, h1⟩
+    · rintro (h1 | ⟨x, rfl | hx, h1⟩)
+      · exact Or.inl (Or.inl h1)
+      · exact Or.inl (Or.inr h1)
+      · exact Or.inr ⟨x, hx, h1⟩
+
+/-- `union_perm_invariant` — PARTIAL (histories without precision reduction and without reset): presenting the same
+updates in another order gives the same result. -/
+theorem union_perm_invariant_partial (p : Params) (hp : p.listFitsSet) (lgMaxK : Nat) (hkb : lgMaxK ≤ p.keyBits)
+    (ops ops' : List UOp) (hperm : ops.Perm ops') (hnr : ∀ o, o ∈ ops → o ≠ .reset)
+    (hok : NoReduction ν p lgMaxK ops) (tt : TType) :
+    let r : St ν := unionResult p (uRun p (newUnion p lgMaxK) ops) tt
+    let r' : St ν := unionResult p (uRun p (newUnion p lgMaxK) ops') tt
+    r.lgK = r'.lgK ∧ (r.mode = .hll → r'.mode = .hll → r.regs = r'.regs) ∧
+    (r.mode ≠ .hll → r'.mode ≠ .hll → ∀ c, c ∈ r.items ↔ c ∈ r'.items) := by
+  have hok' : NoReduction ν p lgMaxK ops' := fun o ho => hok o (hperm.mem_iff.2 ho)
+  have hnr' : ∀ o, o ∈ ops' → o ≠ .reset := fun o ho => hnr o (hperm.mem_iff.2 ho)
+  refine union_result_determined (ν := ν) p hp lgMaxK hkb ops ops' hok hok' tt tt ?_
+  intro c _
+  unfold offered
+  rw [mem_offered_aux ops [] c hnr, mem_offered_aux ops' [] c hnr']
+  constructor
+  · rintro (h1 | ⟨o, ho, h1⟩)
+    · exact Or.inl h1
+    · exact Or.inr ⟨o, hperm.mem_iff.1 ho, h1⟩
+  · rintro (h1 | ⟨o, ho, h1⟩)
+    · exact Or.inl h1
+    · exact Or.inr ⟨o, hperm.mem_iff.2 ho, h1⟩
+
+/-- `union_get_result_pure` for estimate calls — PARTIAL (histories without precision reduction): an interleaved
+get_estimate / get_composite_estimate / bound call does not change any later result. -/
+theorem union_estimate_pure_partial (p : Params) (hp : p.listFitsSet) (lgMaxK : Nat) (hkb : lgMaxK ≤ p.keyBits)
+    (ops₁ ops₂ : List UOp) (hok : NoReduction ν p lgMaxK (ops₁ ++ ops₂)) (tt : TType) :
+    let r : St ν := unionResult p (uRun p (newUnion p lgMaxK) (ops₁ ++ ops₂)) tt
+    let r' : St ν := unionResult p (uRun p (newUnion p lgMaxK) (ops₁ ++ [.touch] ++ ops₂)) tt
+    r.lgK = r'.lgK ∧ (r.mode = .hll → r'.mode = .hll → r.regs = r'.regs) ∧
+    (r.mode ≠ .hll → r'.mode ≠ .hll → ∀ c, c ∈ r.items ↔ c ∈ r'.items) := by
+  have hok' : NoReduction ν p lgMaxK (ops₁ ++ [.touch] ++ ops₂) := by
+    intro o ho
+    simp only [List.mem_append, List.mem_singleton] at ho
+    rcases ho with (ho | ho) | ho
+    · exact hok o (List.mem_append_left _ ho)
+    · subst ho; trivial
+    · exact hok o (List.mem_append_right _ ho)
+  refine union_result_determined (ν := ν) p hp lgMaxK hkb _ _ hok hok' tt tt ?_
+  intro c _
+  have e : offered (ops₁ ++ [.touch] ++ ops₂) = offered (ops₁ ++ ops₂) := by
+    simp [offered, List.foldl_append, offeredStep]
+  rw [e]
+
 /-! Non-vacuity: concrete sketches meet the hypotheses (via C03's `hll_regs_max`), and a concrete union behaves as stated. -/
 def exDst : St Unit := run uP (newSketch uP 4 .h8 true) [cPair uP 1 1, cPair uP 5 3]
 def exSrc : St Unit := run uP (newSketch uP 6 .h4 true) [cPair uP 3 2, cPair uP 21 4, cPair uP 37 6]
@@ -178,5 +397,18 @@ def exU : Un Unit := uRun uP (newUnion uP 6) [.merge wD false, .coupon (cPair uP
 example : exU.gadget.lgK = exU.lgMaxK ∧ exU.gadget.tt = .h8 ∧ exU.gadget.startFull = false ∧
     (exU.gadget.mode = .hll → exU.gadget.regs.size = 2^exU.gadget.lgK) ∧ exU.gadget.lgK ≤ uP.keyBits := by decide +kernel
 example : (unionResult uP exU .h4).regs.getD 9 0 = 7 ∧ (unionResult uP exU .h4).regs.getD 2 0 = 3 := by decide +kernel
+
+/-- a history without precision reduction: an HLL-mode input of lg_k = lg_max_k = 6, a LIST-mode input of lg_k 9, raw items,
+an estimate call and a reset in between -/
+def wL : SkDesc := { lgK := 9, tt := .h4, sf := false, cs := [cPair uP 300 2, cPair uP 5 1, cPair uP 300 2] }
+def exOps : List UOp :=
+  [.merge wL false, .coupon (cPair uP 9 7), .merge wD false, .touch, .coupon (cPair uP 70 3), .reset, .merge wD false, .merge wL false]
+example : NoReduction Unit uP 6 exOps := by
+  intro op hop
+  simp only [exOps, List.mem_cons, List.not_mem_nil, or_false] at hop
+  rcases hop with rfl | rfl | rfl | rfl | rfl | rfl | rfl | rfl <;> decide +kernel
+example : uP.listFitsSet ∧ 6 ≤ uP.keyBits := by decide
+example : (unionResult uP (uRun uP (newUnion uP 6 : Un Unit) exOps) .h6).mode = .hll ∧
+    (unionResult uP (uRun uP (newUnion uP 6 : Un Unit) exOps) .h6).regs.getD (300 % 64) 0 = 2 := by decide +kernel
 
 end DS.Hll
